@@ -644,7 +644,7 @@ class DelimitedRowWriter(AbstractRowWriter):
     def write_row(self, row_to_write):
         try:
             self._delimited_writer.writerow(row_to_write)
-        except UnicodeEncodeError as error:
+        except UnicodeError as error:
             raise errors.DataFormatError("cannot write data row: %s; row=%s" % (error, row_to_write), self.location)
         self._location.advance_line()
 
@@ -715,7 +715,7 @@ class FixedRowWriter(AbstractRowWriter):
 
         try:
             self._target_stream.write("".join(row_to_write))
-        except UnicodeEncodeError as error:
+        except UnicodeError as error:
             raise errors.DataFormatError("cannot write data row: %s; row=%s" % (error, row_to_write), self.location)
         if self._line_separator is not None:
             self._target_stream.write(self._line_separator)
